@@ -112,3 +112,18 @@ Theorem C16_trace_fn_is_the_translated_C :
   forall d e args w, run_trace d skel_funs e args fn_trace w = Some (trace_fn d e args w).
 Proof. exact skel_trace. Qed.
 Print Assumptions C16_trace_fn_is_the_translated_C.
+
+(* ------------------------------------------------------------------ tie by translation: opening / closing functions *)
+(* <prefix><dst>_open_packet / _close_packet as REGENERATED from the template text of barectf.c.j2 on every
+   run (tools/c2coq.py -> Gen/CSkelFuns.v fn_open, fn_close; the serialization of the header / context
+   operation trees and the three write-back blocks are single abstract statements, tied by the operation
+   tree capture and the differential runs), run by the semantics of Tracer/CSkelOC.v, are Model.open_fn /
+   Model.close_fn for every data stream type and world: where the opening / closing functions save the in-tracing-section flag, raise it, and restore the SAVED value on every exit (0 only on the disabled-and-outside-a-tracing-call exit). *)
+From BT.Tracer Require Import CSkel CSkelOC CSkelOCProofs.
+From BT.Gen Require Import CSkelFuns.
+Theorem C16_open_fn_is_the_translated_C : forall d w, run_oc d fn_open w = Some (open_fn d w).
+Proof. exact skel_open. Qed.
+Print Assumptions C16_open_fn_is_the_translated_C.
+Theorem C16_close_fn_is_the_translated_C : forall d w, run_oc d fn_close w = Some (close_fn d w).
+Proof. exact skel_close. Qed.
+Print Assumptions C16_close_fn_is_the_translated_C.
